@@ -192,7 +192,11 @@ def r2_dihedral(chk):
                   if all(v in (1, -1) for v in parts.values()) else "- the angle is not +/-(target - current dihedral) about the bond axis"))
     sub = [n for n, vals in asg.items() for v in vals if isinstance(v, ast.Call) and norm(v.func) == "self.substructure"]
     chk.require(len(sub) == 1, "rotate_dihedral: moved substructure not found")
-    sd = norm(env.expand(ast.Name(sub[0], ast.Load()), keep={a}))
+    sde = env.expand(ast.Name(sub[0], ast.Load()), keep={a})
+    # materialising the walk (`list(...)`, `tuple(...)`) does not change which atoms it names
+    if isinstance(sde, ast.Call) and len(sde.args) == 1 and isinstance(sde.args[0], ast.Call) and call_name(sde.args[0]) in ("list", "tuple") and len(sde.args[0].args) == 1:
+        sde.args[0] = sde.args[0].args[0]
+    sd = norm(sde)
     chk.decide(sd == f"self.substructure(self.yield_bfs({a}[1], {a}[2]))", "C11.R2", f"{f.key}:moved-set", f.where(), sd,
                f"the moved atoms are `{sd}`; they must be exactly those reached from {a}[1] through {a}[2] (the far side of the bond)")
     calls = [c for c in walk_no_nested(f.node) if isinstance(c, ast.Call) and isinstance(c.func, ast.Attribute) and norm(c.func.value) == sub[0] and c.func.attr in ("translate", "transform")]
@@ -420,7 +424,12 @@ def r3_alignment(chk):
         if ok:
             best_r = norm(gs[0].test.comparators[0])
             body = {norm(s.targets[0]): norm(s.value) for s in gs[0].body if isinstance(s, ast.Assign)}
-            ok = body.get(best_r) == rm and rot in body.values() and len(body) == 2 and not gs[0].orelse
+            # besides the two updates the block may regroup what it has just updated (`pair = Pair(best_r, best_m)`, field copies)
+            upd = {k for k, v in body.items() if v in (rm, rot)}
+            regroup = all(k in upd or not (names_in(s_.value) - upd - set(body) - {"np"} - {n_.id for n_ in ast.walk(s_.value) if isinstance(n_, ast.Name) and n_.id[:1] in "_ABCDEFGHIJKLMNOPQRSTUVWXYZ"})
+                          for s_ in gs[0].body if isinstance(s_, ast.Assign) for k in [norm(s_.targets[0])])
+            ok = body.get(best_r) == rm and rot in body.values() and len(upd) == 2 and regroup and not gs[0].orelse \
+                and all(isinstance(s_, ast.Assign) for s_ in gs[0].body)
             best_m = [k for k, v in body.items() if v == rot][0] if ok else None
         chk.decide(ok, "C11.R3", f"{f.key}:best-rotation-and-rmsd-updated-together", f.where(gs[0] if gs else None), f"if {rm} < {best_r}: {best_r}, {best_m} = {rm}, {rot}",
                    "the smallest RMSD and the rotation kept for it are not updated together under one `<` test: the RMSD returned is not the one of the rotation applied")
@@ -461,6 +470,9 @@ def r3_alignment(chk):
     if ok:
         oenv = Env(orr.node)
         apps = [s.value for s in loops[0].body if isinstance(s, ast.Expr) and isinstance(s.value, ast.Call) and isinstance(s.value.func, ast.Attribute) and s.value.func.attr == "append" and len(s.value.args) == 1]
+        if len(apps) != 2 or len({norm(a.func.value) for a in apps}) != 2:
+            # one list of records, a generator, ...: which entry goes with which conformer is not read from this shape
+            raise AnalysisError(f"{orr.key}: the per-conformer results are not collected by two appends to the two returned lists - this shape is not decided")
         vals = [norm(oenv.expand(a.args[0], keep={best_r, best_m}, at=a)) for a in apps]
         lists = [norm(a.func.value) for a in apps]
         rets = [r for r in walk_no_nested(orr.node) if isinstance(r, ast.Return) and r.value is not None]
